@@ -89,6 +89,32 @@ pub fn eval_node<F: FnMut(&GraphColoredVertices, &str)>(
                 eval_context.cache.remove(&canonized_formula_with_domains);
             }
 
+            #[cfg(feature = "verif-hooks")]
+            {
+                use crate::verif_hooks::{Event, emit};
+                let remaining = eval_context
+                    .duplicates
+                    .get(&canonized_formula_with_domains)
+                    .copied()
+                    .unwrap_or(0);
+                emit(Event::CacheHit {
+                    key: canonized_form.clone(),
+                    domains: format!("{canonical_domains:?}"),
+                    renamed: result_renaming != renaming,
+                    remaining,
+                    in_restricted_scope: eval_context
+                        .free_var_domains
+                        .values()
+                        .any(|d| d.is_some()),
+                });
+                if remaining == 0 {
+                    emit(Event::CacheEvict {
+                        key: canonized_form.clone(),
+                        domains: format!("{canonical_domains:?}"),
+                    });
+                }
+            }
+
             // since we are working with canonical cache, we might need to rename vars in result bdd
             let mut reverse_renaming: VarRenameMap = VarRenameMap::new();
             for (var_curr, var_canon) in renaming.iter() {
@@ -112,6 +138,11 @@ pub fn eval_node<F: FnMut(&GraphColoredVertices, &str)>(
     // 1) attractors
     if is_attractor_pattern(&node) {
         progress_callback(&empty_set, "Evaluating attractor pattern.");
+        #[cfg(feature = "verif-hooks")]
+        crate::verif_hooks::emit(crate::verif_hooks::Event::Pattern {
+            kind: "attractor",
+            in_restricted_scope: eval_context.free_var_domains.values().any(|d| d.is_some()),
+        });
         let result = compute_attractor_states(graph, graph.unit_colored_vertices());
         if save_to_cache {
             eval_context
@@ -123,6 +154,11 @@ pub fn eval_node<F: FnMut(&GraphColoredVertices, &str)>(
     // 2) fixed-points
     if is_fixed_point_pattern(&node) {
         progress_callback(&empty_set, "Evaluating fixed-point pattern.");
+        #[cfg(feature = "verif-hooks")]
+        crate::verif_hooks::emit(crate::verif_hooks::Event::Pattern {
+            kind: "fixed_point",
+            in_restricted_scope: eval_context.free_var_domains.values().any(|d| d.is_some()),
+        });
         return steady_states.clone();
     }
 
@@ -240,6 +276,17 @@ pub fn eval_node<F: FnMut(&GraphColoredVertices, &str)>(
 
                     // check edge case of an empty domain (in that case we cannot restrict the domain,
                     // there would be an error)
+                    #[cfg(feature = "verif-hooks")]
+                    if domain_set.is_empty() {
+                        crate::verif_hooks::emit(crate::verif_hooks::Event::EmptyDomainShortcut {
+                            op: op.to_string(),
+                        });
+                    } else {
+                        crate::verif_hooks::emit(crate::verif_hooks::Event::RestrictedGraph {
+                            var: var.clone(),
+                            domain: domain.clone(),
+                        });
+                    }
                     if domain_set.is_empty() {
                         return match op.clone() {
                             HybridOp::Bind => graph.mk_empty_colored_vertices(),
@@ -274,6 +321,13 @@ pub fn eval_node<F: FnMut(&GraphColoredVertices, &str)>(
         }
     };
 
+    #[cfg(feature = "verif-hooks")]
+    if save_to_cache {
+        crate::verif_hooks::emit(crate::verif_hooks::Event::CacheSave {
+            key: canonized_form.clone(),
+            domains: format!("{canonical_domains:?}"),
+        });
+    }
     // save result to cache if needed
     if save_to_cache {
         eval_context
